@@ -14,9 +14,14 @@
                          character-data tokens come in source order
     C17_boundaries       every end point is a char boundary of the source, when the token spans are
                          slices of the source
-  Not proved here (see bin/props/C17.json): that the token spans slice to the spelling the property
-  names (tokenizer), decoding the slice gives the value at tree level (character-level part:
-  C02_content).
+  For the reference tokenizer (Model/Lex*.lean: xmlparser 0.13.6 as written; tied to the crate by the
+  `lex` suite), on EVERY string:
+    C17_lex_slices / _sliceOf   every token span is the slice of the text at its byte offsets
+    C17_lex_errpos, C17_lex_shape, C17_lex_ordered   error position, token-shape contract, source order
+    C17_string_inside / _boundaries / _ordered       the theorems above with no assumption left
+    C17_lex_canonical_positions   canonical spelling ⇒ exactly the positions it implies
+  Not proved here (see bin/props/C17.json): decoding the slice gives the value at tree level
+  (character-level part: C02_content).
 -/
 import XotModel.Lemmas.ParseSpans
 import XotModel.Lemmas.ParseSpanKeys
@@ -25,6 +30,10 @@ import XotModel.Lemmas.ParseSpanTotal
 import XotModel.Lemmas.ParseSpanEnds
 import XotModel.Lemmas.ParseWitnessData
 import XotModel.Lemmas.TokenShapeB
+import XotModel.Lemmas.LexSlice
+import XotModel.Lemmas.LexSliceOrder
+import XotModel.Lemmas.LexCanon
+import XotModel.Model.ParseString
 
 namespace XotModel.Props
 open XotModel XotModel.Witness
@@ -164,5 +173,96 @@ example : let r := build .document goodDocLen Env.fresh goodDoc none
     r.spanOf ⟨[0], .attributeName 3⟩ = some ⟨17, 18⟩ ∧ r.spanOf ⟨[0], .attributeValue 3⟩ = some ⟨20, 27⟩ ∧
     r.spanOf ⟨[0, 2], .comment⟩ = some ⟨33, 34⟩ ∧ r.spanOf ⟨[0, 3], .text⟩ = some ⟨37, 52⟩ := by
   rw [build_eq_buildE]; decide +kernel
+
+/-! ### The reference tokenizer (Model/Lex.lean, xmlparser 0.13.6 as written; tied to the crate by
+the `lex` suite): the tokenizer side of the contract is a THEOREM, for every input string -/
+
+/-- Every span of every token the reference tokenizer returns — for EVERY text `s`, well-formed
+    or not, in document and in fragment mode — is the slice of `s` between the span's byte
+    offsets (`sliceBytes` = `str::get(start..end)`: defined only on char boundaries inside `s`). -/
+theorem C17_lex_slices (m : Mode) (s : Str) :
+    ∀ t ∈ (lexMode m s).1, t.All (fun sp => sliceBytes s sp.start sp.stop = some sp.text) := by
+  cases m
+  · exact lexDocument_slices s
+  · exact lexFragment_slices s
+
+/-- … equivalently: the span's text occurs in `s` at the span's byte offset. -/
+theorem C17_lex_sliceOf (m : Mode) (s : Str) : ∀ t ∈ (lexMode m s).1, t.All (StrSpan.SliceOf s) := by
+  cases m
+  · exact lexDocument_sliceOf s
+  · exact lexFragment_sliceOf s
+
+/-- The position reported with a tokenizer error (`ParseError::XmlParser(_, pos)`) is a char
+    boundary of `s`, in particular `≤ len`. -/
+theorem C17_lex_errpos (m : Mode) (s : Str) (p : Nat) (h : (lexMode m s).2 = some p) :
+    IsBoundary s p ∧ p ≤ strLen s := by
+  have hb : IsBoundary s p := by
+    cases m
+    · exact lexDocument_errpos s p h
+    · exact lexFragment_errpos s p h
+  exact ⟨hb, hb.le⟩
+
+/-- The token-shape contract (the assumption of C17_errors / C17_inside / C17_ordered) holds of
+    the reference tokenizer's output on every string. -/
+theorem C17_lex_shape (m : Mode) (s : Str) : TokenShape (strLen s) (lexMode m s).1 (lexMode m s).2 := by
+  cases m
+  · exact lexDocument_shape s
+  · exact lexFragment_shape s
+
+/-- String level: for EVERY text, every span recorded by `parse` / `parse_fragment` and every
+    error span starts and ends on a char boundary of the text (tokenizer and builder composed;
+    no assumption left). -/
+theorem C17_string_boundaries (m : Mode) (env : Env) (s : Str) :
+    (∀ p, parseString m env s = .ok p →
+      ∀ e ∈ p.spans, IsBoundary s e.2.start ∧ IsBoundary s e.2.stop) ∧
+    (∀ e env', parseString m env s = .err e env' →
+      IsBoundary s e.span.start ∧ IsBoundary s e.span.stop) :=
+  C17_boundaries (C17_lex_sliceOf m s) (fun p h => (C17_lex_errpos m s p h).1)
+
+/-- String level: every error span and every recorded span lies in `[0, len]`. -/
+theorem C17_string_inside (m : Mode) (env : Env) (s : Str) :
+    (∀ p, parseString m env s = .ok p → ∀ e ∈ p.spans, e.2.InBounds (strLen s)) ∧
+    (∀ e env', parseString m env s = .err e env' → e.span.InBounds (strLen s)) :=
+  ⟨fun _ h => C17_inside (C17_lex_shape m s) h, fun _ _ h => C17_errors (C17_lex_shape m s) h⟩
+
+/-- The character-data tokens of the reference tokenizer come in source order (the assumption
+    `TextOrdered` of `C17_ordered`), on every string. -/
+theorem C17_lex_ordered (m : Mode) (s : Str) : TextOrdered (lexMode m s).1 := by
+  cases m
+  · exact lexDocument_textOrdered s
+  · exact lexFragment_textOrdered s
+
+/-- String level: `start ≤ end` for every recorded span and every error span of
+    `parse` / `parse_fragment`, on every string. -/
+theorem C17_string_ordered (m : Mode) (env : Env) (s : Str) :
+    (∀ p, parseString m env s = .ok p → ∀ e ∈ p.spans, e.2.start ≤ e.2.stop) ∧
+    (∀ e env', parseString m env s = .err e env' → e.span.start ≤ e.span.stop) :=
+  C17_ordered (C17_lex_shape m s) (C17_lex_ordered m s)
+
+/-- Canonical spelling: the tokenizer reads `renderTokens ts` back as `ts` with every span at the
+    byte offset the spelling implies (`placeTokens`), for token lists of every length and depth
+    that meet the lexical side conditions `LexOK`. -/
+theorem C17_lex_canonical_positions (ts : List Token) :
+    (LexOK true ts = true → lexFragment (renderTokens ts) = (placeTokens 0 ts, none)) ∧
+    (LexOK false ts = true → lexDocument (renderTokens ts) = (placeTokens 0 ts, none)) :=
+  ⟨lexFragment_render ts, lexDocument_render ts⟩
+
+/-- Non-vacuity of `LexOK`: the tokens of `<p:a b="1">x<!--c--></p:a>`, and the positions the
+    theorem gives for them. -/
+def lexWitness : List Token :=
+  [.elementStart ⟨['p'], 0⟩ ⟨['a'], 0⟩ ⟨[], 0⟩, .attribute ⟨[], 0⟩ ⟨['b'], 0⟩ ⟨['1'], 0⟩ ⟨[], 0⟩,
+   .elementEnd .open ⟨[], 0⟩, .text ⟨['x'], 0⟩, .comment ⟨['c'], 0⟩ ⟨[], 0⟩,
+   .elementEnd (.close ⟨['p'], 0⟩ ⟨['a'], 0⟩) ⟨[], 0⟩]
+
+example : LexOK false lexWitness = true ∧ LexOK true lexWitness = true := by decide
+example : renderTokens lexWitness =
+    ['<', 'p', ':', 'a', ' ', 'b', '=', '"', '1', '"', '>', 'x', '<', '!', '-', '-', 'c', '-', '-', '>',
+     '<', '/', 'p', ':', 'a', '>'] := by decide
+example : (lexDocument (renderTokens lexWitness)).1[1]? =
+      some (.attribute ⟨[], 0⟩ ⟨['b'], 5⟩ ⟨['1'], 8⟩ ⟨['b', '=', '"', '1', '"'], 5⟩) ∧
+    (lexDocument (renderTokens lexWitness)).1[3]? = some (.text ⟨['x'], 11⟩) ∧
+    (lexDocument (renderTokens lexWitness)).1[5]? =
+      some (.elementEnd (.close ⟨['p'], 22⟩ ⟨['a'], 24⟩) ⟨['<', '/', 'p', ':', 'a', '>'], 20⟩) := by
+  rw [lexDocument_render lexWitness (by decide)]; decide
 
 end XotModel.Props
